@@ -172,6 +172,14 @@ func (i *ignore) TeardownBlockStatement(meta *ast.Meta) {
 			unignoreRules(&i.ignoreRange, rules)
 		}
 	}
+
+	// The comments written after the last statement of a block, before its closing
+	// brace, are the block's infix comments: a range can end there.
+	for _, c := range meta.Infix {
+		if ignoreType, rules := parseIgnoreComment(c.String()); ignoreType == falcoIgnoreEnd {
+			unignoreRules(&i.ignoreRange, rules)
+		}
+	}
 }
 
 func (i *ignore) IsEnable(rule Rule) bool {
